@@ -89,6 +89,7 @@ type variant struct {
 
 var variants = map[string]variant{
 	"badger.coarse": {pkg: ".", ov: "coarse"},
+	"badger.fine":   {pkg: ".", ov: "fine", ovArg: []string{"-atomic", "y,skl", "-chanpoints", "y/watermark.go"}},
 	"y.fine":        {pkg: "./y", ov: "fine", ovArg: []string{"-atomic", "y,skl", "-chanpoints", "y/watermark.go"}},
 	"skl.fine":      {pkg: "./skl", ov: "fine", ovArg: []string{"-atomic", "y,skl", "-chanpoints", "y/watermark.go"}},
 	"table.coarse":  {pkg: "./table", ov: "coarse"},
@@ -245,7 +246,7 @@ func main() {
 		id = flag.Arg(0)
 	}
 	if id == "prebuild" {
-		for _, b := range []string{"badger.coarse"} {
+		for _, b := range []string{"badger.coarse", "badger.fine"} {
 			if err := build(b); err != nil {
 				fmt.Fprintln(os.Stderr, err)
 				os.Exit(2)
